@@ -295,6 +295,12 @@ def p_hasattr(I, n, pos, kw):
         if c is not None and c.lookup(pos[1].s, I.p) is not None:
             return Sc(sym.TRUE)
         return Sc(sym.FALSE)
+    if len(pos) == 2 and isinstance(pos[1], StrV) and pos[1].s in ("__iter__", "__len__", "__getitem__"):
+        # the container protocols of the values the evaluator knows the Python type of
+        if isinstance(pos[0], (Seq, Concat, DictV, StrV)) or (isinstance(pos[0], (Arr, Blocks, DiagMat)) and shape_of(pos[0]) != []):
+            return Sc(sym.TRUE)
+        if isinstance(pos[0], (Sc, NoneV)) and not (isinstance(pos[0], Sc) and pos[0].e is not None and pos[0].e[0] == "str"):
+            return Sc(sym.FALSE)
     return Sc(sym.Opq("config", (), fresh("hasattr")))
 
 
@@ -655,6 +661,14 @@ def p_isinstance(I, n, pos, kw):
             return isinstance(v, StrV)
         if name == "builtins.dict":
             return isinstance(v, DictV)
+        if name in ("collections.abc.Iterator", "typing.Iterator", "collections.abc.Generator", "typing.Generator",
+                    "types.GeneratorType"):
+            # containers are iterable, not iterators; the evaluator's iterator objects are
+            if isinstance(v, ObjV) and v.tag in ("iter", "lazy-map", "zip", "enumerate"):
+                return True
+            return False if isinstance(v, (Seq, Arr, Concat, Bag, Blocks, DiagMat, DictV, StrV, Sc, NoneV)) else None
+        if name in ("builtins.bytes", "builtins.bytearray", "builtins.set", "builtins.frozenset"):
+            return False if isinstance(v, (Seq, Arr, Concat, Blocks, DiagMat, DictV, StrV, Sc, NoneV)) else None
         if name == "typing.Iterable":
             return isinstance(v, (Seq, Arr, Concat, Bag, Blocks, DiagMat, DictV, StrV))
         if name in I.p.classes:
@@ -2377,6 +2391,17 @@ def m_format(I, n, recv, pos, kw):
     if isinstance(recv, StrV) and recv.s == "{}" and len(pos) == 1 and not kw and isinstance(pos[0], Sc) and pos[0].e is not None:
         return StrV("<formatted>", arg=pos[0].e)
     return StrV("<formatted>")
+
+
+@method("join")
+def m_join(I, n, recv, pos, kw):
+    # "<sep>".join(<strings>): the text when every piece is known, a rendered string otherwise (texts carry no numbers)
+    if isinstance(recv, StrV):
+        items = pos[0].items if pos and isinstance(pos[0], Seq) else None
+        if items is not None and all(isinstance(x, StrV) and x.s not in ("<formatted>", "<f-string>") for x in items):
+            return StrV(recv.s.join(x.s for x in items))
+        return StrV("<formatted>")
+    return I.unknown("method:join", n)
 
 
 def _dict_key_val(k):
